@@ -99,3 +99,15 @@ theorem converged_means {K : Type} [ScalarF K] (tol eps : K) (c : Nat → K) (ma
   simpa [C12.stop, Model.stopTest, Bool.and_eq_true] using this
 
 end GraphSlam.Props.C05
+
+namespace GraphSlam.Props.C05
+open GraphSlam GraphSlam.Theory Matrix
+
+/-- the Gauss–Newton step never increases the **linearised** χ² (take `d = 0` in `gn_minimises_fixed`) -/
+theorem linearised_decrease {m N : Nat} (J : Matrix (Fin m) (Fin N) ℝ) (Ω : Matrix (Fin m) (Fin m) ℝ) (hs : Ωᵀ = Ω)
+    (hpsd : ∀ v : Fin m → ℝ, 0 ≤ chi2 Ω v) (e : Fin m → ℝ) (F : Fin N → Prop) (dx : Fin N → ℝ)
+    (h : SolvesAssembled J Ω e F dx) : chi2 Ω (e + J *ᵥ dx) ≤ chi2 Ω e := by
+  have := gn_minimises_fixed J Ω hs hpsd e F dx h 0 (fun _ _ => rfl)
+  simpa using this
+
+end GraphSlam.Props.C05
